@@ -236,6 +236,22 @@ fn element(r: &mut Rng) -> Vec<u8> {
             v.extend(r.bytes_below(10));
             v
         }
+        18 if r.chance(1, 3) => {
+            // a complete frame of (nearly) the maximum size: with its 4-byte prefix it is longer than the 65536-byte
+            // receive buffer's initial capacity
+            let len = *r.pick(&[65531u32, 65532, 65533, 65535, 65536]);
+            let id = *r.pick(&[5u8, 7, 7, 20, 9]);
+            let mut v = len.to_be_bytes().to_vec();
+            v.push(id);
+            if id == 7 {
+                v.extend_from_slice(&(r.below(4) as u32).to_be_bytes());
+                v.extend_from_slice(&(r.below(3) as u32 * 16384).to_be_bytes());
+                v.extend(vec![0xabu8; len as usize - 9]);
+            } else {
+                v.extend(vec![0x5au8; len as usize - 1]);
+            }
+            v
+        }
         17 => {
             // id 84 ('T') without the handshake prefix
             let n = r.below(6) as usize;
@@ -267,6 +283,13 @@ pub fn gen_stream(r: &mut Rng) -> Vec<u8> {
 fn random_cuts(r: &mut Rng, len: usize) -> String {
     if len == 0 {
         return "-".into();
+    }
+    if len > 65536 && r.chance(2, 3) {
+        // a stream longer than the receive buffer: first read at, just below or just above its capacity
+        let first = *r.pick(&[65535usize, 65536, 65537, 65532, len - 1]);
+        if first < len {
+            return first.to_string();
+        }
     }
     let k = r.below(5) as usize;
     let mut cuts = vec![];
